@@ -685,6 +685,7 @@ func (l *Lexer) NextItem(itemp *Item) {
 	l.itemp = itemp
 	if l.state != nil {
 		for !l.scannedItem {
+			verifLex(1, len(l.input))
 			l.state = l.state(l)
 		}
 	} else {
